@@ -4,7 +4,7 @@ import math
 import vlib, gen
 from beziers.point import Point
 
-RULE = ('segments of order 2/3/4 from families int/float/grid/collinear/coincident/big(1e6)/tiny x t,s in {0,1,dyadic,1/3,random}; '
+RULE = ('segments of order 2/3/4 from families int/float/grid/collinear/coincident/big(1e6)/tiny/near-coincident(1e-10 relative)/small-int, plus stale-state sequences (query, edit in place, query again vs a fresh object) x t,s in {0,1,dyadic,1/3,random}; '
         'non-trivial = control points not all equal; distinct = distinct (control polygon, t, s)')
 NOT_PROVED = ['floating-point clause: results within 1e-12 * max|coordinate| of the real-number identities (measured against exact rational arithmetic, not proved)']
 ASSUMPTIONS = ['Python float = IEEE binary64 round-to-nearest; small ints meeting floats behave as the equal float',
@@ -84,12 +84,16 @@ def search(ctx):
     worst = 0.0
     n = ctx.n(400, 8000)
     for _ in range(n):
-        s, fam = gen.segment(rng, fam=rng.choice(['int', 'float', 'grid', 'collinear', 'coincident', 'big']))
+        s, fam = gen.segment(rng, fam=rng.choice(['int', 'float', 'grid', 'collinear', 'coincident', 'big', 'near', 'smallint']))
         t, u = gen.tvalue(rng), gen.tvalue(rng)
         key = (gen.seg_key(s), t, u)
         if gen.nondegenerate(s): seen.add(key)
         dist[fam] = dist.get(fam, 0) + 1
         f = check_one(s, t, u)
+        if not f and rng.random() < 0.25:
+            qs = {'pointAtTime': lambda x: x.pointAtTime(t), 'splitAtTime': lambda x: x.splitAtTime(t)}
+            if len(s.points) > 2: qs['derivative'] = lambda x: x.derivative().pointAtTime(t)
+            f = gen.freshness(rng, s, qs)
         if len(samples) < 3: samples.append({'segment': gen.seg_json(s), 't': t, 's': u})
         if f:
             fails.append({'class': 'C01-identity', 'what': f[0], 'input': {'segment': gen.seg_json(s), 't': t, 's': u}, 'observed': f, 'expected': 'Bernstein identities within 1e-12*max|coord|'})
